@@ -4,12 +4,12 @@ def groups(tier):
     CH = ['--bounds-check', '--pointer-check', '--signed-overflow-check', '--div-by-zero-check', '--undefined-shift-check']
     return [Group('decode.v1.total', 'manifest_dec', 'C18/decode.c', entry='h_decode_stub', stub=['protocol__base64_decode'], unwind=4,
                   unwind_by={'cxx_strlen': 8, 'cxx_memcmp': 40, 'cxx_copy_u8': 40, 'protocol__read_u64': 9, 'h_decode_stub': 120, 'cxx_fill_u8': 40, 'str_from_n': 14, 'str_substr': 14, 'cxx_rfind0_cstr': 8},
-                  defines=['PAYLOAD_CAP=100', 'CXX_VEC_CAP=108', 'CXX_FIXED_STORAGE', 'BASE64_STUB_VIEW', 'VERSION1'], kind='bounded', timeout=600, backend=['sat', 'cadical', 'cvc5'], checks=CH, replay='expiry',
+                  defines=['PAYLOAD_CAP=100', 'CXX_VEC_CAP=108', 'CXX_FIXED_STORAGE', 'BASE64_STUB_VIEW', 'VERSION1'], kind='bounded', timeout=1800, backend=['sat', 'cadical', 'cvc5'], checks=CH, replay='expiry',
                   bound='version-1 payloads of at most 100 bytes (any content: header, expiry, up to 1 key shard); base64_decode by contract stub',
                   clause='decode_manifest (version 1) returns a manifest or raises invalid_argument; no out-of-bounds access, signed overflow (extreme expiry timestamps) or other undefined behaviour'),
 Group('decode.any_version.total', 'manifest_dec', 'C18/decode.c', entry='h_decode_stub', stub=['protocol__base64_decode'], unwind=8,
                   unwind_by={'cxx_strlen': 8, 'cxx_memcmp': 40, 'cxx_copy_u8': 40, 'protocol__read_u64': 9, 'h_decode_stub': 120, 'cxx_fill_u8': 40, 'str_from_n': 14, 'str_substr': 14, 'cxx_rfind0_cstr': 8},
-                  defines=['PAYLOAD_CAP=100', 'CXX_VEC_CAP=108', 'CXX_FIXED_STORAGE', 'BASE64_STUB_VIEW'], kind='bounded', timeout=600, backend=['sat', 'cadical', 'cvc5'], checks=CH, replay='expiry',
+                  defines=['PAYLOAD_CAP=100', 'CXX_VEC_CAP=108', 'CXX_FIXED_STORAGE', 'BASE64_STUB_VIEW'], kind='bounded', timeout=1800, backend=['sat', 'cadical', 'cvc5'], checks=CH, replay='expiry',
                   bound='payloads of at most 100 bytes, any version and content (header, expiry, shards, metadata, hints as far as they fit); base64_decode by contract stub',
                   clause='decode_manifest (any version) returns a manifest or raises invalid_argument; no out-of-bounds access, signed overflow (extreme expiry timestamps) or other undefined behaviour'),
             Group('base64.total', 'manifest_dec', 'C18/decode.c', entry='h_base64', unwind=8, unwind_by={'cxx_fill_int': 257, 'protocol__base64_decode#0': 66, 'protocol__base64_decode#1': 8, 'vec_u8_grow': 34},
